@@ -386,6 +386,9 @@ func (s *rsession) do(op *rop) bool {
 	}
 	s.o.count("op_" + cls + "_" + string(outs[0].k))
 	key := "reflect/" + s.si.id + "." + string(s.mi.md.Name()) + "/" + op.code
+	if op.code == "mut" && s.hs[op.r].valid && outs[0].k == 'M' && !outs[0].m.IsValid() {
+		key = "reflect/mutable-oneof-wrapper-nil" // Mutable of a oneof member whose wrapper holds nil returns a read-only message
+	}
 
 	// C09 on the way: reads of invalid (nil / read-only empty) receivers never panic, stores panic
 	if recvInvalid {
